@@ -350,8 +350,8 @@ def replay_trace(jobname, trace):
         from mc.checks import c15_cluster
         table = {s['name']: s for t in ('quick', 'thorough') for s in c15_cluster.specs(t)}
         return _jobs.replay_cluster(table[jobname], trace)
-    _, name, depth = jobname.split(':')
-    m = BatteryModel(name, 99)
+    kind, name, depth = jobname.split(':')
+    m = BatteryModel(name, 99) if kind == 'direct' else ReplicatedBatteryModel(name, 99)
     ops = m.spec['ops']
     evs = []
     for t in trace:
@@ -375,6 +375,8 @@ def main(tier, seed, job_filter=None):
                                    'full() compared only for maxsize>0'])
     jobs = [(job, dict(name=n, depth=(depth if 'List' not in n and 'Dict' not in n else depth - (0 if tier == 'quick' else 1))))
             for n in spec_table()]
+    rdepth = 3 if tier == 'quick' else 4
+    jobs += [(job_replicated, dict(name=n, depth=rdepth)) for n in spec_table() if '(1)' not in n]
     if job_filter:
         jobs = [j for j in jobs if job_filter in j[1]['name']]
     rep.replay_fn = replay_trace
@@ -396,3 +398,115 @@ def replay_file(path):
         print('VIOLATION property=C15 replay=%s' % path)
         return 1
     return 0
+
+
+# ---- Part A': the same alphabets through the replication path of a one-node cluster ---------
+
+class ReplicatedBatteryModel(object):
+    """State = operation history; every operation is CALLED the way a user calls it (positional
+    and keyword arguments, callback) on a battery attached to a real one-node SyncObj, travels
+    through the command queue, the log and the apply loop, and its callback result and the
+    battery contents are compared with the builtin. Catches argument encoding / decoding
+    problems that the direct `_doApply` path cannot see."""
+
+    def __init__(self, name, depth):
+        self.name = name
+        self.spec = spec_table()[name]
+        self.depth = depth
+        self._cache = None
+
+    def build(self, hist):
+        if self._cache is not None and self._cache[0] == hist:
+            return self._cache[1]
+        from mc import cluster, seams, vfs
+        b, r = self.spec['make']()
+        cfg = cluster.Config(n=1)
+        rec = cluster.Recorder()
+        seams.CLOCK[0] = cluster.T0
+        seams.RAND[0] = 0.0
+        v = vfs.VFS()
+        vfs.activate(v)
+        so = cluster.ListObj('n1:1', [], cluster.make_conf(cfg, rec, 'n1:1'), cluster.SimTransport('n1:1'), consumers=[b])
+        rec.so = so
+        seams.CLOCK[0] += 1.0
+        so._onTick(0.0)
+        so._onTick(0.0)
+        msg = None
+        results = []
+        for ev in hist:
+            name, args, kwargs = self.spec['ops'][ev]
+            a1, a2 = copy.deepcopy(args), copy.deepcopy(args)
+            k1, k2 = copy.deepcopy(kwargs), copy.deepcopy(kwargs)
+            got = []
+            try:
+                getattr(b, name)(*a1, callback=lambda res, err: got.append((res, err)), **k1)
+                for _ in range(3):
+                    seams.CLOCK[0] += 0.02
+                    so._onTick(0.0)
+            except Exception as e:
+                msg = '%s.%s%r%s through a one-node cluster raised %s: %s' % (self.name, name, args, kwargs or '', type(e).__name__, e)
+                break
+            if len(got) != 1 or got[0][1] != 0:
+                msg = '%s.%s%r%s through a one-node cluster: callback %r' % (self.name, name, args, kwargs or '', got)
+                break
+            res = got[0][0]
+            mine = ('exc', type(res).__name__) if isinstance(res, Exception) else ('ok', res)
+            if name == 'pop' and isinstance(r, RefSet):
+                if r.d:
+                    if mine[0] != 'ok' or mine[1] not in r.d:
+                        msg = '%s.pop() gave %r on %r' % (self.name, mine, r.contents())
+                        break
+                    r.d.remove(mine[1])
+                elif mine != ('exc', 'KeyError'):
+                    msg = '%s.pop() on an empty set gave %r' % (self.name, mine)
+                    break
+            else:
+                want = call(lambda: getattr(r, name)(*a2, **k2))
+                if mine != want:
+                    msg = '%s.%s%r%s called through a one-node cluster: battery %r, builtin %r (contents before: see history %r)' % (
+                        self.name, name, args, kwargs or '', mine, want, [self.spec['ops'][e][0] for e in hist])
+                    break
+            results.append(mine)
+        w = (b, r, msg)
+        self._cache = (hist, w)
+        return w
+
+    def initial(self):
+        return ()
+
+    def events(self, hist):
+        if len(hist) >= self.depth:
+            return []
+        b = self.build(hist)[0]
+        # methods introduced with a code version > 0 cannot be called before that version is enabled
+        return [i for i, (name, a, k) in enumerate(self.spec['ops']) if getattr(getattr(b, name), 'ver', 0) == 0]
+
+    def key(self, hist):
+        b, r, msg = self.build(hist)
+        return (battery_state(b), repr(r.contents()), len(hist))
+
+    def apply(self, hist, ev):
+        nh = hist + (ev,)
+        b, r, msg = self.build(nh)
+        if msg:
+            raise core.Violation('C15 ' + msg, sig='replicated-call-differs')
+        return nh
+
+    def outcome(self, hist):
+        return repr(self.build(hist)[1].contents())
+
+    def check(self, hist):
+        b, r, msg = self.build(hist)
+        c = self.spec['contents']
+        if c is not None and c(b) != r.contents():
+            return 'C15 contents after replicated calls differ: battery %r, builtin %r' % (c(b), r.contents())
+        return None
+
+
+def job_replicated(name, depth):
+    m = ReplicatedBatteryModel(name, depth)
+    res = core.bfs(m, name='replicated1:%s:depth%d' % (name, depth), known=core.KnownFindings(), prop='C15')
+    res.samples = [[m.spec['ops'][e] for e in s] for s in res.samples]
+    for v in res.violations:
+        v['trace'] = [m.spec['ops'][e] for e in v['trace']]
+    return res
